@@ -97,9 +97,97 @@ func replayCluster(nodes int, hist []core.VEvent, e *core.VEvent, mut *core.Muta
 	return out
 }
 
+// vconcScenarios: appends racing with log compaction (and with the verifier goroutine's reads).
+func vconcScenarios(prop string) []*core.VConc {
+	var out []*core.VConc
+	if prop == "C16" {
+		for _, node := range []int{0, 1} {
+			who := []string{"leader", "follower"}[node]
+			for _, tm := range []uint64{1, 2} {
+				out = append(out, &core.VConc{Name: fmt.Sprintf("%s: StoreLogs(6), StoreLogs(checkpoint 7) || DeleteRange(1,%d) || verifier", who, tm), Node: node, TruncMax: tm, WithCP: true})
+			}
+			for _, tm := range []uint64{3, 4} {
+				out = append(out, &core.VConc{Name: fmt.Sprintf("%s: StoreLogs(6) || DeleteRange(1,%d) reaching into the running sum; checkpoint 7 afterwards", who, tm), Node: node, TruncMax: tm})
+			}
+		}
+		return out
+	}
+	for _, node := range []int{1, 0} {
+		who := []string{"leader", "follower"}[node]
+		for _, idx := range []uint64{3, 5, 6} {
+			for _, f := range []string{"databit", "term+1"} {
+				if idx == 6 && node == 0 {
+					continue // the leader's own entry 6 is written inside the scenario
+				}
+				out = append(out, &core.VConc{Name: fmt.Sprintf("%s with entry %d altered at rest (%s): StoreLogs(6), StoreLogs(checkpoint 7) || DeleteRange(1,2) || verifier", who, idx, f),
+					Node: node, TruncMax: 2, WithCP: true, Rest: &core.Mutation{Where: "rest", Node: node, Index: idx, Field: f}})
+			}
+		}
+	}
+	return out
+}
+
+// runVConc explores every schedule of each scenario up to the preemption bound.
+func runVConc(res *ShardResult, prop string, budget time.Duration) {
+	bound := 3
+	if *fTier == "thorough" {
+		bound = 5
+	}
+	scs := vconcScenarios(prop)
+	var names []string
+	for _, s := range scs {
+		names = append(names, s.Name)
+	}
+	res.Bounds["concurrent_scenarios"] = names
+	res.Bounds["concurrent_preemption_bound"] = bound
+	start := time.Now()
+	for si, sc := range scs {
+		sc := sc
+		st := &core.ExploreStats{}
+		var last *core.VConcResult
+		nf := 0
+		x := &core.Explorer{Bound: bound, Deadline: start.Add(budget * time.Duration(si+1) / time.Duration(len(scs))), Shard: *fShard, NShards: *fNShards, Stats: st,
+			Run: func(ch vsched.Chooser) *vsched.Result {
+				r, o := core.RunVConc(ch, sc)
+				last = o
+				return r
+			},
+			Stop: func() bool { return nf >= 4 },
+		}
+		x.Check = func(prefix []int, r *vsched.Result) {
+			st.Outcomes[last.History]++
+			for _, v := range last.Viol {
+				nf++
+				if len(res.Findings) < 40 {
+					f := core.Finding{Prop: v.Prop, Engine: "vconc", Msg: v.Msg, Extra: map[string]interface{}{"scenario": sc, "schedule": append([]int(nil), prefix...)}}
+					f.SigS = fmt.Sprintf("%s|vconc|%s|%s", v.Prop, sc.Name, firstLine(v.Msg))
+					res.Findings = append(res.Findings, f)
+				}
+			}
+		}
+		x.Explore()
+		res.Counts["concurrent_schedules"] += int64(st.Executions)
+		res.Counts["evaluations"] += int64(st.Executions)
+		res.Counts["transitions"] += int64(st.Executions)
+		res.Counts["traces_validated"] += int64(st.Executions)
+		for o := range st.Outcomes {
+			res.Sets["states"] = append(res.Sets["states"], fmt.Sprintf("vconc%d:%s", si, o))
+		}
+		res.hist("concurrent_schedules_per_scenario", fmt.Sprintf("s%d", si+1), int64(st.Executions))
+		if !st.Complete {
+			res.Exhaustive = false
+			res.Notes = append(res.Notes, fmt.Sprintf("concurrent scenario %q not completed at preemption bound %d", sc.Name, bound))
+		}
+	}
+}
+
 func runCluster(prop string) *ShardResult {
 	res := newResult()
 	thorough := *fTier == "thorough"
+	total := *fBudget
+	runVConc(res, prop, total/5)
+	*fBudget = total * 4 / 5
+	defer func() { *fBudget = total }()
 	nodes, depth := 2, 7
 	if thorough {
 		nodes, depth = 3, 7
@@ -263,6 +351,7 @@ func twinAlphabet(first, last uint64) []core.TOp {
 		{K: "A", N: 1}, {K: "A", N: 2}, {K: "A", N: 1, Gap: true},
 		{K: "A", N: 1, CP: "empty"}, {K: "A", N: 2, CP: "empty", CP2: true},
 		{K: "A", N: 1, CP: "valid"}, {K: "A", N: 2, CP: "foreign"}, {K: "A", N: 1, CP: "short"},
+		{K: "A", N: 1, CP: "empty", Fail: true}, {K: "A", N: 2, CP: "valid", Fail: true},
 	}
 	if last > 0 {
 		ops = append(ops, core.TOp{K: "D", Min: first, Max: first}, core.TOp{K: "D", Min: last, Max: last}, core.TOp{K: "D", Min: first, Max: last})
@@ -356,14 +445,15 @@ func runC18() *ShardResult {
 		res.Sets["states"] = append(res.Sets["states"], "twin:"+k)
 	}
 	// (b) blocked ReportFn, all schedules up to the bound
-	for _, open := range []bool{true, false} {
+	for vi, open := range []bool{true, false, true} {
 		open := open
+		trunc := vi == 2
 		st := &core.ExploreStats{}
 		var last *core.BlockedResult
 		nf := 0
-		x := &core.Explorer{Bound: bound, Deadline: time.Now().Add(*fBudget / 6), Shard: *fShard, NShards: *fNShards, Stats: st,
+		x := &core.Explorer{Bound: bound, Deadline: time.Now().Add(*fBudget / 9), Shard: *fShard, NShards: *fNShards, Stats: st,
 			Run: func(ch vsched.Chooser) *vsched.Result {
-				r, b := core.RunBlockedReport(ch, nCP, open)
+				r, b := core.RunBlockedReportT(ch, nCP, open, trunc)
 				last = b
 				return r
 			},
@@ -373,7 +463,7 @@ func runC18() *ShardResult {
 			st.Outcomes[last.History]++
 			for _, v := range last.Viol {
 				nf++
-				addF(v.Msg, fmt.Sprintf("blocked|open=%v|%s", open, firstLine(v.Msg)), map[string]interface{}{"gate_opens": open, "schedule": append([]int(nil), prefix...), "checkpoints": nCP})
+				addF(v.Msg, fmt.Sprintf("blocked|open=%v|trunc=%v|%s", open, trunc, firstLine(v.Msg)), map[string]interface{}{"gate_opens": open, "truncate_last": trunc, "schedule": append([]int(nil), prefix...), "checkpoints": nCP})
 			}
 		}
 		x.Explore()
@@ -383,13 +473,13 @@ func runC18() *ShardResult {
 		res.Counts["traces_validated"] += int64(st.Executions)
 		res.Counts["distinct_nontrivial"] += int64(len(st.Outcomes))
 		for o := range st.Outcomes {
-			res.Sets["states"] = append(res.Sets["states"], fmt.Sprintf("blocked(open=%v):%s", open, o))
+			res.Sets["states"] = append(res.Sets["states"], fmt.Sprintf("blocked(open=%v,trunc=%v):%s", open, trunc, o))
 		}
 		if !st.Complete {
 			res.Exhaustive = false
 		}
 		if len(res.Samples) < 4 {
-			res.Samples = append(res.Samples, map[string]interface{}{"scenario": fmt.Sprintf("writer stores %d checkpoints || runVerifier || ReportFn blocked on a gate (opens=%v)", nCP, open), "distinct_outcomes": len(st.Outcomes), "schedules": st.Executions})
+			res.Samples = append(res.Samples, map[string]interface{}{"scenario": fmt.Sprintf("writer stores %d checkpoints (then truncates and rewrites the last: %v) || runVerifier || ReportFn blocked on a gate (opens=%v)", nCP, trunc, open), "distinct_outcomes": len(st.Outcomes), "schedules": st.Executions})
 		}
 	}
 	return res
